@@ -156,10 +156,27 @@ def run_case(c, rng):
         spec = rig_spec(rng, c.tier)
         cls = 'rig'
     else:
+        # every fourth network: pumps (half of them constant-power) that deliver straight into a tank, small tanks - the tank closes
+        # such a pump at its maximum level and the simulator has to give it back when the tank leaves the limit
+        tp = c.index % 4 == 1
         spec = gnet.gen_spec(rng, n_tank=(1, 2), n_junc=(3, 9) if c.tier == 'quick' else (3, 18), p_pdd=0.0, p_report_all=1.0, n_valve=(0, 1),
-                             steps=(8, 24), p_leak=0.0, p_tank_two_links=0.5, p_power_pump=0.05)
+                             steps=(8, 24), p_leak=0.0, p_tank_two_links=0.5, p_power_pump=0.5 if tp else 0.05, p_tank_pump=0.8 if tp else 0.0)
+        if tp:
+            for t_ in spec['tanks']:
+                t_['diameter'] = min(t_['diameter'], rng.choice([4.0, 6.0, 10.0]))
+            c.count('tank_pump_networks')
         spec['options']['report_timestep'] = 'ALL'
         ctrlgen.add_random_controls(spec, rng, n=(2, 6), kinds=('tank', 'tank', 'pressure'))
+        if tp:
+            # the usual operating rule of a tank pump, open half only: the pump runs until the tank itself stops it at its maximum
+            # level, and has to come back when the level has fallen below the threshold
+            tnames = dict((t_['name'], t_) for t_ in spec['tanks'])
+            for pu in spec['pumps']:
+                if pu['end'] in tnames and rng.random() < 0.8:
+                    tk = tnames[pu['end']]
+                    lo = gnet._round(tk['min_level'] + rng.uniform(0.3, 0.8) * (tk['max_level'] - tk['min_level']), 4)
+                    spec['controls'].append({'kind': 'cond', 'name': 'c%d' % (len(spec['controls']) + 1), 'source': tk['name'], 'sattr': 'level', 'op': '<',
+                                             'threshold': lo, 'target': pu['name'], 'attr': 'status', 'value': 'OPEN'})
         cls = 'gnet'
     conds = [cs for cs in spec['controls'] if cs['kind'] == 'cond']
     if not conds:
@@ -277,6 +294,10 @@ def run_case(c, rng):
                             excused = True
                         if lvl >= tk['max_level'] - 10 * HTOL and own_h <= other_h + HTOL:     # would fill a full tank
                             excused = True
+                        if tgt in [p_['name'] for p_ in spec['pumps']]:
+                            # a pump moves water from its start to its end whatever the heads are: into a full tank / out of an empty one
+                            if (end == l['end'] and lvl >= tk['max_level'] - 10 * HTOL) or (end == l['start'] and lvl <= tk['min_level'] + 10 * HTOL):
+                                excused = True
                 if excused:
                     c.count('excused_tank_limit')
                     continue
